@@ -1,8 +1,10 @@
 (* C09 — take rate: per-asset formula, gating, clock.  Proved at the level of the
    value DeductAssetsWithTakeRate computes for each asset (the list it returns and
-   stores) and of the clock arithmetic; the store / bank effects are covered by the
-   executable specification check_C09 evaluated on implementation traces and by the
-   exact correspondence (partial). *)
+   stores) and of the clock: exact advance by the n whole intervals charged, and never
+   retroactive — while nothing is chargeable the clock follows the block time, so stake
+   deposited later is not charged for idle intervals.  The store / bank effects are covered by
+   C01's proof (exact transfer), by the executable specification check_C09 evaluated on
+   implementation traces and by the exact correspondence (partial). *)
 From Coq Require Import ZArith List Bool.
 From Alliance Require Import Num KMap Types Monad Model Step Spec Hoare.
 From Alliance.Proofs Require Import TakeRate.
@@ -41,6 +43,22 @@ Print Assumptions C09_not_due.
 Theorem C09_first_call : forall als s, deduct_take_rate ZERO_TIME als s = Ok als (set_params (set_p_last (now s) (params s)) s).
 Proof. exact first_call_only_starts_clock. Qed.
 Print Assumptions C09_first_call.
+
+(* never retroactive: with nothing chargeable (nothing staked, rate zero, or before the start time,
+   for every asset) a due deduction moves the clock to the block time and changes nothing else *)
+Theorem C09_idle_clock_follows_block_time : forall last als s,
+  last <> ZERO_TIME -> p_interval (params s) <> 0 ->
+  Forall (fun a => chargeable (now s) a = false) als ->
+  deduct_take_rate last als s = Ok als (set_params (set_p_last (now s) (params s)) s).
+Proof. exact idle_clock_follows_block_time. Qed.
+Print Assumptions C09_idle_clock_follows_block_time.
+
+(* whenever a deduction changes an asset record the clock advances by exactly n whole intervals *)
+Theorem C09_charged_clock_moves_whole_intervals : forall last als s out s',
+  last <> ZERO_TIME -> deduct_take_rate last als s = Ok out s' -> out <> als ->
+  p_last (params s') = last + p_interval (params s) * Z.quot (now s - last) (p_interval (params s)).
+Proof. exact charged_clock_moves_whole_intervals. Qed.
+Print Assumptions C09_charged_clock_moves_whole_intervals.
 
 Example C09_nonvacuous :
   let a := mkAsset 1 ONE 0 ONE (ONE / 2) 1000001 0 0 ONE 0 0 true in
